@@ -99,6 +99,8 @@ func genScCase(rng *rand.Rand) scCase {
 	return c
 }
 
+func os07Only() string { return os.Getenv("C07_ONLY") }
+
 func c07Sched(r *Result, rng *rand.Rand, tier string) {
 	if o := os.Getenv("C07_ONLY"); o != "" && o != "sched" { // development aid
 		return
